@@ -265,6 +265,79 @@ def c10(ctx):
     ctx.count(label, len(cases), len({json.dumps([c.meta.get('files'), c.meta.get('manifests'), c.meta.get('mutations'), c.ops, c.faults], default=str) for c in cases}),
               samples=[{'files': cases[0].meta.get('files'), 'ops': cases[0].ops, 'impl': slim(res[0][1][1]) if res[0][1][0] == 'ok' else res[0][1]}],
               dist={'kinds': kinds, 'cases_with_full_clause_check': checked})
+    cli_update_preserves(ctx)
+
+
+def cli_update_preserves(ctx):
+    """the command-line front end: `gemato update [--force-rewrite] <top>/<dir>` leaves every file that is not a Manifest alone,
+    keeps every DIST entry, and - for a sub-directory update - the TIMESTAMP of the top-level Manifest (the CLI refreshes an
+    existing TIMESTAMP only on whole-tree updates)"""
+    quick = ctx.tier == 'quick'
+    r = ctx.rng('c10cli')
+    n = 150 if quick else 1500
+    st = {'runs': 0, 'sub_directory': 0, 'exit0': 0, 'timestamp_kept': 0, 'timestamp_refreshed_whole_tree': 0, 'dist_entries_kept': 0}
+
+    def manifests_of(files):
+        return {p: OX.parse(p, d) for p, d in files.items() if os.path.basename(p).startswith('Manifest')}
+
+    def tagged(ms, tag):
+        return sorted(json.dumps([e[0], e[1], e[2], sorted((e[3] or {}).items())] if tag != 'TIMESTAMP' else [e[0], e[4] if len(e) > 4 else e[1]], default=str)
+                      for m, ents in ms.items() for e in (ents or ()) if e[0] == tag)
+    with ET.Scratch() as sc:
+        for _ in range(n):
+            c = PT.gen_update_case(r, rounds=0)
+            t = c.tree
+            ino = t.lookup('Manifest')
+            if ino is None or t.link_paths():
+                continue
+            top = t.nodes[ino]
+            if b'TIMESTAMP' not in top['data']:
+                top['data'] = b'TIMESTAMP 2017-10-22T18:06:41Z\n' + top['data']
+                top['size'] = len(top['data'])
+            dirs = [d for d in c.meta['dirs'] if d and not d.startswith('.') and '/.' not in d]
+            upath = r.choice(dirs) if dirs and r.random() < 0.75 else ''
+            argv = ['gemato', 'update', '--hashes', ' '.join(c.opts[0])] + (['--force-rewrite'] if r.random() < 0.3 else [])
+            b, s = sc.fresh()
+            try:
+                t.realise(b, s)
+                if upath and not os.path.isdir(os.path.join(b, upath)):
+                    upath = ''
+                pre = {p: d for p, d, mt in ET.list_real_files(b)}
+                with ET.ScandirOrder(GT.order_key_for(c.meta['order_seed'])):
+                    rc, items = PT.run_cli_collect(argv + [os.path.join(b, upath) if upath else b])
+                post = {p: d for p, d, mt in ET.list_real_files(b)}
+            finally:
+                sc.cleanup(b, s)
+            st['runs'] += 1
+            st['sub_directory'] += 1 if upath else 0
+            replay = {'argv': argv, 'path': upath, 'exit': rc, 'log': items, 'meta': meta_of(c), 'tree': PT.describe(t)}
+            isman = lambda p: os.path.basename(p).startswith('Manifest')
+            for p in sorted(set(pre) | set(post)):
+                if not isman(p) and pre.get(p) != post.get(p):
+                    if not known_finding(ctx, 'C10', c, 'foreign-file', p + ':cli'):
+                        ctx.violation('spec', f'gemato update {upath or "."} {"created" if p not in pre else "deleted" if p not in post else "modified"} {p}, which is not a Manifest', replay)
+            if rc != 0:
+                continue
+            st['exit0'] += 1
+            pm, qm = manifests_of(pre), manifests_of(post)
+            if any(v is None for v in pm.values()) or any(v is None for v in qm.values()):
+                continue                    # a Manifest-named file that is not a Manifest
+            if tagged(pm, 'DIST') != tagged(qm, 'DIST'):
+                replay['dist_before'], replay['dist_after'] = tagged(pm, 'DIST'), tagged(qm, 'DIST')
+                ctx.violation('spec', f'gemato update {upath or "."} changed the DIST entries', replay)
+            else:
+                st['dist_entries_kept'] += 1
+            ts0 = [e for e in (pm.get('Manifest') or ()) if e[0] == 'TIMESTAMP']
+            ts1 = [e for e in (qm.get('Manifest') or ()) if e[0] == 'TIMESTAMP']
+            if upath:
+                if [tuple(map(str, e)) for e in ts0] != [tuple(map(str, e)) for e in ts1]:
+                    replay['timestamp_before'], replay['timestamp_after'] = str(ts0), str(ts1)
+                    ctx.violation('spec', f'gemato update {upath} (a sub-directory update without --timestamp) changed the TIMESTAMP of the top-level Manifest', replay)
+                else:
+                    st['timestamp_kept'] += 1
+            elif str(ts0) != str(ts1):
+                st['timestamp_refreshed_whole_tree'] += 1
+    ctx.count('cli:update-preserves', st['runs'], st['runs'], dist=st)
 
 
 # --------------------------------------------------------------------------- C12
